@@ -227,12 +227,63 @@ def files(ctx, report):
         shutil.rmtree(root, ignore_errors=True)
 
 
+def footer_band(ctx, report):
+    """files 2..n whose FOOTER LENGTH sweeps across the size the concurrent footer fetch guesses from the first
+    file (int(1.4 * first footer)); every length in a band around it, byte by byte"""
+    import fastparquet
+    rng = ctx.rng
+    root = os.path.join(ctx.workdir("c14"), "band")
+    shutil.rmtree(root, ignore_errors=True)
+    os.makedirs(root)
+    dfs = [pd.DataFrame({"rid": np.arange(3 * i, 3 * i + 3, dtype="int64"), "v": [float(i)] * 3}) for i in range(3)]
+    fa, fb, fc = (os.path.join(root, f"{n}.parquet") for n in "abc")
+    fastparquet.write(fa, dfs[0], write_index=False)
+    fastparquet.write(fc, dfs[2], write_index=False)
+    guess = int(1.4 * fastparquet.ParquetFile(fa)._head_size)
+
+    def flen(path):
+        with open(path, "rb") as f:
+            f.seek(-8, 2)
+            return int.from_bytes(f.read(4), "little")
+    fastparquet.write(fb, dfs[1], write_index=False, custom_metadata={"pad": ""})
+    base = flen(fb)
+    lo, hi = (guess - 14, guess + 6) if ctx.quick else (guess - 40, guess + 40)
+    for target in range(lo, hi + 1):
+        pad = target - base
+        if pad < 0:
+            continue
+        fastparquet.write(fb, dfs[1], write_index=False, custom_metadata={"pad": "x" * pad})
+        got_len = flen(fb)
+        if got_len != target:          # the length varint grew: adjust once
+            fastparquet.write(fb, dfs[1], write_index=False, custom_metadata={"pad": "x" * max(pad - (got_len - target), 0)})
+            got_len = flen(fb)
+        rec = {"check": "open-many", "shape": "footer-band", "files": 3, "mode": "list", "footer_len": got_len, "guess": guess}
+        ctx.crumb(rec)
+        try:
+            pf = fastparquet.ParquetFile([fa, fb, fc])
+            rids = [int(x) for x in pf.to_pandas()["rid"]]
+            nrg = len(pf.row_groups)
+        except Exception as e:  # noqa
+            report.violation({**rec, "what": f"opening three files raised {canon_err(e)} {str(e)[:100]} when the second file's footer is {got_len} bytes "
+                                             f"(fetch guess {guess})", "sig": "footer-band:raised"})
+            report.case(("band", got_len), True)
+            continue
+        if rids != list(range(9)) or nrg != 3:
+            report.violation({**rec, "what": f"{nrg} row groups / rows {rids} instead of 3 / 0..8 when the second file's footer is {got_len} bytes",
+                              "sig": "footer-band:wrong"})
+        report.case(("band", got_len), True, sample=rec if got_len == guess else None)
+        report.count("shape:footer-band")
+    shutil.rmtree(root, ignore_errors=True)
+
+
 def run(ctx, report):
     report.rule = ("(1) exhaustive path lists (<=3 paths, depth<=3, 2-letter alphabet; root inferred / given) for analyse_paths; (2) lists of "
                    "1..5 files / sub-datasets in flat, hive, drill shapes with independent category sets, opened via list (given and sorted "
-                   "order), directory, glob, merge(); non-trivial = >=2 files; distinct by (shape, files, mode, order)")
+                   "order), directory, glob, merge(); non-trivial = >=2 files; distinct by (shape, files, mode, order); (3) three files where the second file's footer length takes "
+                   "every value in a band around the size guessed by the concurrent footer fetch")
     analyse(ctx, report)
     files(ctx, report)
+    footer_band(ctx, report)
 
 
 def search(ctx, report):
